@@ -1205,6 +1205,35 @@ theorem fit_emits_wf (S : Schema) (hdet : detB S = true) (hfill : S.fillersOKB =
   subst hst
   exact aroundShape_of F T G1 G2 sl' ins b hw h1 h2 h3
 
+/-! ### payload validity and no-raise: the statements aimed at, and the invariant they need (not proved)
+
+FULL STATEMENTS AIMED AT:
+`fit_emits_valid_payload` : hypotheses of `fit_emits_wf` → closed nodes of the request slice valid →
+  `openValid S sl'.openStart sl'.openEnd sl'.content` for the emitted slice `sl'` (every node the Fitter
+  closed is valid, the nodes still open carry canonical marks);
+`fit_no_raise` : … `→ sl.noPartialNode S → replaceStep S doc f t sl ≠ .error .raises`, and with
+  `fitLoop_terminates` the total `replaceStep_total`.
+
+The invariant both need is `FitState.coherentB` (PM/Fitter.lean, decidable): walking the last-child
+chain of `placed`, `frontier[i].ty` is the type of the node open at level `i` and `frontier[i].match` is
+the state of that type's automaton after the children counted there — from the state
+`Fitter.__init__` computed for the levels whose open node is still the document's (a prefix `i ≤ g`
+of the frontier; for `i < depth(from)` the first child, which that state already counts, is skipped),
+from the start state over all children for the levels the Fitter opened.  It is evaluated by the driver
+after every iteration of every generated request (op `fitEmit`, counter "frontier coherent with placed
+over the loop"): true on all bundled-family runs and on all runs of a random-schema search
+(about 6 200 + 4 400 runs of the loop).  A first formulation without the ghost level `g` was refuted by that
+search at once (a level closed and re-opened by `place_nodes` counts from the start state again).
+With it: `close_frontier_node`'s `fill_before(…, True)` runs from the state after the real children, so the
+closed node's content is accepted (`fillBeforeTypes_exact`) — validity of closed nodes; and
+`content_match_at(child_count)` on the re-opened node of `place_nodes` is `run 0 (types kids)`, which
+succeeds exactly when the node is not a partial node (`Slice.noPartialNode`).  What is in place for the
+proof: `placeNodes_inStep` fixes the shape of `placed` after each phase of `place_nodes`
+(`closeMany_ok`, `openMany_ok`, `takeLoop_last`, `placeTaken_spine`); missing are the automaton-state
+bookkeeping of `takeLoop` (the state it returns is `run` over the types of what it added — `closeNodeStart`
+keeps the node's type), `closeNodeStart`'s own validity (fill prefix + children accepted; needs the
+request slice's `openValid`), and that mark filtering (`allowedMarks`) keeps mark sets canonical. -/
+
 /-- the in-step invariant itself: kept by every iteration whose unplaced slice is well-formed -/
 theorem inStep_invariant (S : Schema) (hdet : detB S = true) (hfill : S.fillersOKB = true) (hwrap : S.wrapOKB = true)
     (hlab : S.labelsOKB = true) (st st' : FitState) (hin : InStep st) (hwf : st.unplaced.wf = true)
